@@ -7,3 +7,7 @@ def c05(rep):
 
 def c06(rep):
     pass
+
+
+def c08(rep):
+    pass
